@@ -871,16 +871,27 @@ def mode_contracts(reg):
         n, a = M.arr_of(c.args["data"])
         return VSeq(n / 16, lambda j: VBytes([VInt(x) for x in M.blk(a, j)]), "block")
 
-    out.append(FnContract(
+    chunks_view = FnContract(
         target=f"{AES}::_chunks", assumed=True, generator=True,
         params=[("data", DATA), ("size", p_const(16))],
         requires=lambda c: c.args["data"].length % 16 == 0,
         returns=chunks_returns,
-        note="sequence-level SUMMARY used at the call sites (block j of a block-aligned buffer is bytes 16j..16j+15, len/16 blocks); "
-             "its content is discharged on the real generator body by the `_chunks/inv-*#chunk-k-is-bytes-16k..16k+15` obligations "
-             "(EXTRA chunks_iteration: per iteration + iteration count); only the composition `yielded sequence = per-iteration yields "
-             "in order` (PY-GEN) is assumed; validated natively in replay (chunks_ok)",
-    ))
+        note="CALL-SITE VIEW of a VERIFIED contract (round 7), not an assumption: the sequence-level summary (block j of a "
+             "block-aligned buffer is bytes 16j..16j+15, len/16 blocks) is what EXTRA chunks_iteration proves on the real body "
+             f"(`_chunks/ensures#{CHUNKS_SEQ_LABEL}` over the ghost yield stream, with the loop invariant obligations "
+             "`_chunks/inv-*#chunk-k-is-bytes-16k..16k+15[.pointwise]`), and the lemma `_chunks/lemma#call-site-summary-is-implied-"
+             "by-the-verified-contract` derives this view from that postcondition.  `assumed=True` only keeps the engine from "
+             "verifying the view a second time; it is reported as assumed whenever one of the obligations named in `implied_by` is "
+             "not discharged in the run.  Also validated natively in replay (chunks_ok)",
+    )
+    # the obligations that make this view a consequence of verified facts (pyvc/check.py: an assumed contract whose `implied_by`
+    # obligations are all proved in the run is reported under `call_site_views_of_verified_contracts`, otherwise as assumed)
+    gen_form = chunks_is_generator()
+    if gen_form is True:
+        chunks_view.implied_by = [f"{CHUNKS_PRE}/ensures#{CHUNKS_SEQ_LABEL}", CHUNKS_VIEW_LEMMA]
+    elif gen_form is False:
+        chunks_view.implied_by = [f"{CHUNKS_PRE}/ensures#chunk-k-is-bytes-16k..16k+15"]       # returns the sequence itself: seq_post
+    out.append(chunks_view)
 
     # ---- what the loop invariants talk about is found by ROLE in the state of the real function, never by name:
     #   * the output buffer   = the (one) symbolic byte array on the heap that a local refers to,
@@ -1276,6 +1287,10 @@ def lemmas():
                 [n >= 0, M.pad_rel(n, D, pn, PD), M.unpad_rel(pn, PD, rn, RD)], z3.And(rn == n, M.seq_eq(n, RD, n, D))))
     out.append(("C20/spec::pkcs7/lemma#padded-length-is-block-aligned-and-padding-valid",
                 [n >= 0, M.pad_rel(n, D, pn, PD)], z3.And(pn % 16 == 0, pn > n, pn <= n + 16, M.valid_padding(pn, PD))))
+    try:
+        out.append(chunks_view_lemma())
+    except Exception:  # noqa -- never let an exception escape lemmas(); without the lemma the view is reported as assumed
+        pass
     return out
 
 
@@ -1458,11 +1473,54 @@ def install_site(repo, tier):
     return {"obligations": obls, "functions": [dict(m.fn_info("patch_pypdf_fallback_aes"), obligations=len(obls))]}
 
 
+CHUNKS_SEQ_LABEL = "yielded-sequence-is-the-len/16-blocks-of-the-input-in-order"
+CHUNKS_PRE = "C20/_pypdf_aes_fallback.py::_chunks"
+CHUNKS_VIEW_LEMMA = f"{CHUNKS_PRE}/lemma#call-site-summary-is-implied-by-the-verified-contract"
+
+
+def chunk_is_block(stream, a, k):
+    """0 <= k < count  ==>  the k-th yielded value has 16 bytes and they are a[16k .. 16k+15]"""
+    cnt, yl, ys = stream
+    return z3.Implies(z3.And(k >= 0, k < cnt),
+                      z3.And([z3.Select(yl, k) == 16] + [z3.Select(z3.Select(ys, k), t) == z3.Select(a, 16 * k + t) for t in range(16)]))
+
+
+def chunks_is_generator(repo=None):
+    import ast as _ast
+    try:
+        fnode = loader.module(AES, repo).functions.get("_chunks")
+    except Exception:  # noqa
+        return None
+    if fnode is None:
+        return None
+    return any(isinstance(x, (_ast.Yield, _ast.YieldFrom)) for x in _ast.walk(fnode))
+
+
+def chunks_view_lemma():
+    """The sequence-level SUMMARY the drivers use for `_chunks(data, 16)` (VSeq of len/16 blocks, block j = bytes 16j..16j+15) is
+    implied by the postcondition verified on the generator body (ghost yield stream): same length, same elements."""
+    from contracts import c20_modes as M
+    I_ = z3.IntSort()
+    n, a = z3.Int("n!cv"), z3.Array("a!cv", I_, M.BV8)
+    cnt, yl, ys = z3.Int("cnt!cv"), z3.Array("yl!cv", I_, I_), z3.Array("ys!cv", I_, M.ARR)
+    k, k0 = z3.Int("k!cv"), z3.Int("k0!cv")
+    post = z3.And(cnt == n / 16, z3.ForAll([k], chunk_is_block((cnt, yl, ys), a, k)))
+    view = VSeq(n / 16, lambda j: VBytes([VInt(x) for x in M.blk(a, j)]), "block")        # = chunks_returns
+    e = view.elem(k0)
+    goal = z3.And(view.length == cnt,
+                  z3.Implies(z3.And(k0 >= 0, k0 < cnt),
+                             z3.And([z3.IntVal(len(e.items)) == z3.Select(yl, k0)] +
+                                    [M.byte_t(x) == z3.Select(z3.Select(ys, k0), t) for t, x in enumerate(e.items)])))
+    return (CHUNKS_VIEW_LEMMA, [n >= 0, n % 16 == 0, post], goal)
+
+
 def chunks_iteration(repo, tier):
     """`_chunks` is used by the drivers through a SEQUENCE-level summary (block j = bytes 16j..16j+15, len/16 blocks).  Its content
-    is discharged here on the real generator body, per iteration: in the k-th iteration of its loop exactly one value is
-    yielded and it is the 16 bytes data[16k .. 16k+15]; the iteration count len/16 is the engine's `range(0, n, 16)`; that the
-    yielded sequence is the per-iteration yields in order is the eager generator semantics PY-GEN."""
+    is discharged here on the real generator body AT SEQUENCE LEVEL (round 7): the values a generator produces are its yields in
+    execution order, carried as a ghost stream (count, lengths, contents: c20_modes.YIELD_STREAM) that every `yield` extends and
+    the loop cut havocs; loop invariant `count == i` + pointwise `the j-th yielded value is bytes 16j..16j+15`; postcondition
+    `count == len/16 and for all k < count: chunk k is block k`.  The lemma `chunks_view_lemma` derives the drivers' summary
+    from this postcondition, so the summary is a VIEW of a verified contract, not an assumption."""
     from contracts import c20_modes as M
     from pyvc import verify
     from pyvc.contracts import Registry
@@ -1473,20 +1531,72 @@ def chunks_iteration(repo, tier):
     DATA = M.p_symbytes(desc="data: bytes of any block-aligned length")
 
     def inv(lc):
+        """after i iterations exactly i values have been yielded (one per iteration); a `for` over range(0, n, 16) runs n/16 times"""
         n, a = M.arr_of(param(lc, "data"))
-        if lc.extra.get("phase") == "init":
-            return lc.seq.length == n / 16             # the loop runs len/16 times
-        if lc.extra.get("phase") != "preserve":
-            return z3.BoolVal(True)
-        new = lc.st.yielded[len(lc.entry.yielded):]
-        if len(new) != 1:
-            return z3.BoolVal(False)
-        try:
-            yn, ya = M.arr_of(new[0])
-        except ops.Unsupported:
-            return z3.BoolVal(False)
-        k = lc.i - 1                                   # the iteration just finished
-        return z3.And(yn == 16, z3.And([z3.Select(ya, t) == z3.Select(a, 16 * k + t) for t in range(16)]))
+        cnt, _yl, _ys = M.yield_stream(lc.st)
+        cnt0, _a, _b = M.yield_stream(lc.entry)
+        cs = [cnt == cnt0 + lc.i]
+        if lc.seq is not None:
+            cs.append(lc.seq.length == n / 16)
+        else:
+            # `while` form: the loop's own counters advance by a constant per iteration (x == x@entry + step * i, read off the
+            # body), and never more than len/16 values have been yielded (with the negated test this gives the count at exit)
+            cs += counters(lc)
+            cs.append(16 * cnt <= n)
+        return z3.And(cs)
+
+    def counters(lc):
+        import ast
+        fn = lc.ex.cur_fn_stack[-1]
+        loops = sorted([x for x in ast.walk(fn) if isinstance(x, (ast.For, ast.While))], key=lambda x: (x.lineno, x.col_offset))
+        if not loops:
+            return []
+        body = loops[0].body
+        stored = lc.ex.assigned_names(body)
+
+        def const_of(e):
+            if isinstance(e, ast.Constant) and isinstance(e.value, int) and not isinstance(e.value, bool):
+                return e.value
+            if isinstance(e, ast.Name) and e.id not in stored:
+                v = lc.entry.lookup(e.id)
+                return v.const() if isinstance(v, VInt) else None
+            return None
+        out = []
+        for st_ in body:
+            name = step = None
+            if isinstance(st_, ast.AugAssign) and isinstance(st_.op, (ast.Add, ast.Sub)) and isinstance(st_.target, ast.Name):
+                k = const_of(st_.value)
+                if k is not None:
+                    name, step = st_.target.id, (k if isinstance(st_.op, ast.Add) else -k)
+            elif isinstance(st_, ast.Assign) and len(st_.targets) == 1 and isinstance(st_.targets[0], ast.Name) \
+                    and isinstance(st_.value, ast.BinOp) and isinstance(st_.value.op, ast.Add):
+                for x, y in ((st_.value.left, st_.value.right), (st_.value.right, st_.value.left)):
+                    if isinstance(x, ast.Name) and x.id == st_.targets[0].id and const_of(y) is not None:
+                        name, step = x.id, const_of(y)
+                        break
+            if name is None or sum(1 for z_ in ast.walk(ast.Module(body=body, type_ignores=[])) if isinstance(z_, ast.Name) and z_.id == name and isinstance(z_.ctx, ast.Store)) != 1:
+                continue
+            v0, v1 = lc.entry.lookup(name), lc.st.lookup(name)
+            if v0 is None or v1 is None:
+                continue
+            out.append(ops.int_term(v1) == ops.int_term(v0) + step * lc.i)
+        return out
+
+    def inv_point(lc, j):
+        """every value yielded so far is a block of the input: the j-th one is the 16 bytes data[16j .. 16j+15]"""
+        n, a = M.arr_of(param(lc, "data"))
+        return chunk_is_block(M.yield_stream(lc.st), a, j)
+
+    def seq_level(c):
+        """SEQUENCE-level postcondition of the generator: len/16 values are yielded and the k-th one is bytes 16k..16k+15"""
+        n, a = M.arr_of(c.args["data"])
+        cnt, yl, ys = M.yield_stream(c.st)
+        k = z3.Int(fresh_name("k!chunk"))
+        return z3.And(cnt == n / 16, z3.ForAll([k], chunk_is_block((cnt, yl, ys), a, k)))
+
+    def with_stream(c):
+        M.init_yield_stream(c.st)          # own verification only (this contract object is never applied at a call site)
+        return c.args["data"].length % 16 == 0
 
     import ast as _ast
     fnode = loader.module(AES, repo).functions["_chunks"]
@@ -1511,8 +1621,9 @@ def chunks_iteration(repo, tier):
 
     if is_gen:
         c = FnContract(target=f"{AES}::_chunks", generator=True, params=sig_params("_chunks", {"data": DATA, "size": p_const(16)}),
-                       requires=lambda c: c.args["data"].length % 16 == 0, raises=[],
-                       loops={0: LoopSpec(inv=inv, label="chunk-k-is-bytes-16k..16k+15")})
+                       requires=with_stream, raises=[],
+                       ensures=[(CHUNKS_SEQ_LABEL, seq_level)],
+                       loops={0: LoopSpec(inv=inv, inv_point=inv_point, havoc=M.YIELD_STREAM, label="chunk-k-is-bytes-16k..16k+15")})
     else:
         c = FnContract(target=f"{AES}::_chunks", params=sig_params("_chunks", {"data": DATA, "size": p_const(16)}),
                        requires=lambda c: c.args["data"].length % 16 == 0, raises=[],
